@@ -7,12 +7,12 @@
 package c15
 
 import (
-	"strconv"
 	"bytes"
 	"fmt"
 	"net"
 	"os"
 	"sort"
+	"strconv"
 	"strings"
 	"time"
 
@@ -305,7 +305,7 @@ type result struct {
 	sockCli  int
 	// socket ids named by write/close tasks although no connect task ever introduced them
 	unknownSock []string
-	closed   bool
+	closed      bool
 }
 
 // runClient plays one client: flights is the list of chunk lists; after each flight the
@@ -968,6 +968,14 @@ func Run(r *ev.Run) {
 			items = append(items, func(r *ev.Run) { runTablesTwoHandshakes(r, k, 4, true) })
 		}
 	}
+	hh := 4
+	if r.Thorough() {
+		hh = 8
+	}
+	for k := 0; k < hh; k++ {
+		k := k
+		items = append(items, func(r *ev.Run) { runSocksHistories(r, k, hh) })
+	}
 	r.Bounds["work_items"] = len(items)
 	par.Run(r, len(items), 30*time.Minute, func(i, n int, r *ev.Run) {
 		if n == 1 {
@@ -977,6 +985,7 @@ func Run(r *ev.Run) {
 			runTables(r, -1, 0, 1)
 			runTablesThreeClients(r, 0, 1)
 			runTablesTwoHandshakes(r, 0, 1, false)
+			runSocksHistories(r, 0, 1)
 			return
 		}
 		items[i](r)
